@@ -51,7 +51,7 @@ CHECKS = {
   "category": "other",
   "technique": "dominance of file mutations by success edges, control dependence of the up-to-date shortcut, propagation of fallible steps",
   "text": "Freshness over histories is NOT decided. Decided are necessary structural clauses of Compile::run_on_single_file / run_recursively: the only file-mutating call is dominated by the success of Grammar::from_str and generate_code and nothing else in the crate mutates files; the early return is control-dependent on equality of the destination's leading bytes with a value data-dependent on grammar text and prefix, and the written bytes start with that same value; all fallible steps are ?-propagated; directory mode calls the same routine for .ebnf entries and propagates. The header's digest is fed the whole grammar text in one piece (a digest over lines / a trimmed or normalised view is a violation).",
-  "note": TRUST + "Histories (stale-prefix, CRC collisions, settings not in the key) are out of reach and documented in DESIGN.md §4.",
+  "note": TRUST + "One history class IS decided structurally: a key that ends in the raw prefix and is compared over len(key) bytes cannot notice a shortened prefix (C18.key prefix-not-delimited; true on this tree = known finding D13). Other histories (CRC collisions, settings not in the key) are out of reach and documented in DESIGN.md §4.",
  },
  "C04": {
   "category": "other",
